@@ -259,7 +259,31 @@ class JoinerEval:
         body = [s for s in f.node.body if not (isinstance(s, ast.Expr) and isinstance(s.value, ast.Constant))]
         for st in body:
             if isinstance(st, ast.Assign) and len(st.targets) == 1 and isinstance(st.targets[0], ast.Name):
-                env[st.targets[0].id] = self.expr(st.value, env)
+                if isinstance(st.value, (ast.List, ast.Tuple)) and not st.value.elts:
+                    env[st.targets[0].id] = Seq(None, None)        # an accumulator, filled by the loop below
+                else:
+                    env[st.targets[0].id] = self.expr(st.value, env)
+            elif isinstance(st, ast.AnnAssign) and isinstance(st.target, ast.Name) and st.value is not None:
+                if isinstance(st.value, (ast.List, ast.Tuple)) and not st.value.elts:
+                    env[st.target.id] = Seq(None, None)
+                else:
+                    env[st.target.id] = self.expr(st.value, env)
+            elif isinstance(st, ast.For) and not st.orelse:
+                # `for (i, w) in enumerate(parts): acc.append(E)` (E possibly chosen by an if / else on the position): acc = [E for ...]
+                def appended(stmts: t.Sequence[ast.stmt]) -> t.Optional[t.Tuple[str, ast.expr]]:
+                    if len(stmts) == 1 and isinstance(stmts[0], ast.Expr) and isinstance(stmts[0].value, ast.Call) \
+                            and isinstance(stmts[0].value.func, ast.Attribute) and stmts[0].value.func.attr == 'append' \
+                            and isinstance(stmts[0].value.func.value, ast.Name) and len(stmts[0].value.args) == 1:
+                        return stmts[0].value.func.value.id, stmts[0].value.args[0]
+                    if len(stmts) == 1 and isinstance(stmts[0], ast.If) and stmts[0].orelse:
+                        a_, b_ = appended(stmts[0].body), appended(stmts[0].orelse)
+                        if a_ and b_ and a_[0] == b_[0]:
+                            return a_[0], ast.IfExp(test=stmts[0].test, body=a_[1], orelse=b_[1])
+                    return None
+                got = appended(st.body)
+                if got is None or not (isinstance(env.get(got[0]), Seq) and t.cast(Seq, env[got[0]]).first is None and t.cast(Seq, env[got[0]]).rest is None):
+                    self.fail(st, "loop form not supported by the joiner evaluator")
+                env[got[0]] = self.map_over(self.expr(st.iter, env), st.target, got[1], env, st)
             elif isinstance(st, ast.Return) and st.value is not None:
                 return self.expr(st.value, env)
             else:
